@@ -86,6 +86,41 @@ def u_update_two_uq(I):
     return C15.u_update_frame(I, both_uq=True)
 
 
+def u_copy(I):
+    """copy(): a new object of the SAME class (a group correlation stays a group correlation -- update() refuses to merge across classes) built
+    from this object's own five data fields"""
+    ctx = I.ctx
+    W_ = I.world
+    INC = 'pgradd/ThermoChem/incomplete.py'
+    which = ['ThermochemIncomplete', 'ThermochemGroup'][ctx.choose([True, True], 'class of the object')]
+    cls = source.module(INC).classes['ThermochemIncomplete'] if which == 'ThermochemIncomplete' else source.module('pgradd/ThermoChem/group_data.py').classes['ThermochemGroup']
+    built = []
+    for cn in ('ThermochemIncomplete', 'ThermochemGroup'):
+        W_.ctor_hooks[cn] = (lambda cn_: lambda I_, c, a, k: (built.append((c.name, list(a), dict(k))), Obj(c, {'made': len(built)}, 'fresh'))[1])(cn)
+    H, S, T = ctx.fresh('H', 'real'), ctx.fresh('S', 'real'), ctx.fresh('T_ref', 'real')
+    table = {300.0: 4.0}
+    rng = (ctx.fresh('lo', 'real'), ctx.fresh('hi', 'real'))
+    o = Obj(cls, {'ND_H_ref': H, 'ND_S_ref': S, 'ND_Cp_data': table, 'T_ref': T, 'range': rng}, 'param')
+    o.complete = True
+    out = run_target(I, INC, 'ThermochemIncomplete.copy', [], self_obj=o)
+
+    def posts(r):
+        ok = len(built) == 1 and isinstance(r, Obj) and r.fields.get('made') == 1
+        ps = [('exactly one new object is built and returned', z3.BoolVal(ok))]
+        if ok:
+            cn, a, k = built[0]
+            names = ['ND_H_ref', 'ND_S_ref', 'ND_Cp_data', 'T_ref', 'range']
+            args = dict(zip(names, a))
+            args.update(k)
+            ps.append(('the copy has the class of the original (%s)' % which, z3.BoolVal(cn == which)))
+            ps.append(('it is built from the original\'s own reference values, table, reference temperature and range',
+                       z3.BoolVal(args.get('ND_H_ref') is H and args.get('ND_S_ref') is S and args.get('ND_Cp_data') is table and args.get('T_ref') is T
+                                  and (args.get('range') is rng or args.get('range') == rng))))
+        return ps
+    check_outcome(I, out, raises={}, returns=posts)
+    return {'inputs': {}}
+
+
 def u_order_lemma(I):
     """include order / nesting does not matter (without overwrite): over the postcondition of ThermochemIncomplete.update (C13 part 1:
     table = own table overlaid with the other's, conflict = a key in both with two different values, range = hull, reference value =
@@ -127,6 +162,7 @@ UNITS = [
     Unit('GroupLibrary.Update[two uncertainty blocks]', (LIB, 'GroupLibrary.Update'), u_update_two_uq),
     Unit('GroupLibrary._do_load[groups loop: duplicate spellings]', (LIB, 'GroupLibrary._do_load'), u_read_groups('groups')),
     Unit('GroupLibrary._do_load[other_descriptors loop: duplicates]', (LIB, 'GroupLibrary._do_load'), u_read_groups('descriptors')),
+    Unit('ThermochemIncomplete.copy', ('pgradd/ThermoChem/incomplete.py', 'ThermochemIncomplete.copy'), u_copy),
     Unit('lemma:include-order-and-nesting', None, u_order_lemma, kind='lemma'),
 ]
 for _u in UNITS:
